@@ -9,6 +9,10 @@ CHECKS = {
             "Inverse-pair monitor run on the real helper functions over their finite grids: all 65,536 temperature/double words, all k/100 temperatures, all percent/flag bytes, every minute of 2019-2029 (thorough), seconds of a 100-year window, all 2^24 device ids (thorough; quick strides them), all 3,001 schedule setpoints. Held = exact equality at every enumerated point; the thorough tier is exhaustive on those grids.",
             "Trusts CPython float/datetime arithmetic; sentinel words 31FF/7EFF/7FFF excluded from the temperature grid; strings compared without edge blanks.",
             "exhaustive grid sweep with exact-equality oracle (runtime inverse-pair monitor)", "§3 C04"),
+    "C01": ("exploration",
+            "Exception-class monitor at Packet.from_file/from_port/from_dict + Message() over corpus lines, 1-3-edit mutants, regex-sampled payloads of every known verb/code and gateway chatter; differential stream monitor (stream with junk vs without) through the real FileTransport (dict and text file), PortTransport on a fake serial port and MqttTransport on a fake paho client; partition monitor (every single cut incl. CR|LF, 1-byte reads, random cuts, empty reads) on the real serial read path. Held = no foreign exception class, no replay ended with an error, valid lines always delivered in order, identical frames for every partition, on everything explored.",
+            "ValueError on a non-empty datable line is counted, not judged (the receive path rejects it cleanly); MQTT envelopes are well-formed; serial/MQTT OS layers are replaced by doubles at the pyserial/paho boundary.",
+            "exception-class monitor + differential (metamorphic) stream/partition monitors on the real transports", "§3 C01"),
 }
 NOT_APPLICABLE = []
 
